@@ -327,6 +327,16 @@ def main(argv=None):
         modname = "vf.checks.%s" % prop.lower()
         mod = importlib.import_module(modname)
     except BaseException as e:  # noqa
+        inner = _is_from_repo(e) if isinstance(e, Exception) else None
+        if prop == "C19" and inner is not None and inner[0].endswith("settings.py"):
+            # the very first evo start on a fresh home directory (the harness's own) failed while initialising / loading the
+            # settings: that is the property itself, observed before any generated case could run
+            case = {"scenario": "first_start", "params": {}}
+            path = write_replay(prop, {"sub": "crash", "case": case, "message": "first start on a fresh home directory fails: %r" % (e,),
+                                       "tags": {"observed": "next_start_fails", "scenario": "first_start", "op": "no_fault"}}, args.tier, seed)
+            print("violation detail: sub=crash the first evo start on a fresh home directory fails in %s:%s: %r" % (inner[0], inner[1], e))
+            print("VIOLATION property=%s replay=%s" % (prop, path))
+            return 1
         print("HARNESS-ERROR property=%s %r" % (prop, e))
         traceback.print_exc()
         return 2
